@@ -141,7 +141,16 @@ def gen_op(rng, t, state, root):
             return dict(base, op="set", i=i, x=["none"])
         c = rng.random()
         if c < 0.5:
-            return dict(base, op="add", i=i)
+            # add() / add(name=value, ...): attributes of the new element assigned in the same call (scalar and enum
+            # members of a struct element; one in three values is one the member's type refuses)
+            kw = []
+            if ft[0] == "struct" and rng.random() < 0.6:
+                esz = set(kk[-1] for _, kk, _ in ft[2] if kk[0] in ("bound", "limited"))
+                plain = [j for j, (_, kk, et) in enumerate(ft[2]) if kk[0] == "plain" and et[0] in ("scalar", "enum") and j not in esz]
+                rng.shuffle(plain)
+                for j in plain[:rng.choice([1, 1, 2, 3])]:
+                    kw.append([j, scalar_arg(rng, ft[2][j][2], 0.33)])
+            return dict(base, op="add", i=i, kw=kw) if kw else dict(base, op="add", i=i)
         if c < 0.75:
             return dict(base, op="delitem", i=i, idx=idx_arg(rng, n))
         return dict(base, op="delslice", i=i, a=opt_idx(rng, n), b=opt_idx(rng, n))
@@ -216,11 +225,14 @@ def op_coq(op):
     k = op["op"]
     b = "true" if op.get("root") == "b" else "false"
     if k == "copy":
-        return "(HCopy %s)" % ("true" if op["dst"] == "b" else "false")
+        return "(HI (HCopy %s))" % ("true" if op["dst"] == "b" else "false")
+    if k == "add" and op.get("kw"):
+        return "(HAddWith %s %s %d%%nat [%s])" % (b, path_coq(op.get("path", [])), op["i"],
+                                               "; ".join("(ASet %d%%nat %s)" % (j, pyval_coq(x)) for j, x in op["kw"]))
     if k == "extend_from":
-        return "(HExtendFrom %s %s %d%%nat %s %s %d%%nat)" % (b, path_coq(op["path"]), op["i"],
+        return "(HI (HExtendFrom %s %s %d%%nat %s %s %d%%nat)" % (b, path_coq(op["path"]), op["i"],
                                                              "true" if op["src_root"] == "b" else "false",
-                                                             path_coq(op["src_path"]), op["src_i"])
+                                                             path_coq(op["src_path"]), op["src_i"]) + ")"
     i = "%d%%nat" % op["i"] if "i" in op else ""
     if k == "set":
         a = "(ASet %s %s)" % (i, pyval_coq(op["x"]))
@@ -246,7 +258,7 @@ def op_coq(op):
         a = "(AAdd %s)" % i
     else:
         raise ValueError(k)
-    return "(HOp %s %s %s)" % (b, path_coq(op.get("path", [])), a)
+    return "(HI (HOp %s %s %s))" % (b, path_coq(op.get("path", [])), a)
 
 
 # ------------------------------------------------------------------ running
